@@ -126,6 +126,22 @@ def gen(rng: random.Random, index: int) -> dict:
             # keep every instant off the telegram grid
             flaps.extend(((int(x / G) * G + G / 2), st) for x, st in seq)
     spec["flaps"] = flaps
+    # life-cycle events that cancel internal tasks without touching the telegram history (counter sensors only: what a cancelled
+    # reset timer should do is not covered by the statement): XKNX.stop()+start(), device remove + re-add
+    life = []
+    if kind == "bs_counter" and rng.random() < 0.6:
+        for _ in range(rng.randint(1, 3)):
+            if rng.random() < 0.7:  # right after a telegram, i.e. while its context window is open
+                a = rng.choice(events)["t"] + G / 2 + G / 4
+            else:
+                a = (2 * rng.randint(0, int((t + base) / G)) + 1) * G / 2 + G / 4
+            life.append((a, rng.choice(("restart_xknx", "readd_device"))))
+    spec["lifecycle"] = sorted(life)
+    if life:
+        # keep the reference exact: whether a response was counted cannot be read off the counter while stale counts may linger
+        for e in events:
+            if e["how"] == "response":
+                e["how"] = "write"
     return spec
 
 
@@ -140,6 +156,7 @@ class Model:
         self.cnt = {True: 0, False: 0}
         self.last_t: float | None = None
         self.window_end: float | None = None
+        self.tasks_cancelled = False  # a life-cycle event cancelled the context task since the last counted telegram
         self.on_chain = 0  # number of 'on' telegrams that found the device on since it last turned on (for mechanism names)
         self.last_on_kind = ""
 
@@ -179,6 +196,7 @@ class Model:
 
     def count(self, t: float, on: bool) -> None:
         self.cnt = self.counted(t, on)
+        self.tasks_cancelled = False
         self.last_t = t
         self.window_end = t + self.c
         self.st = on
@@ -222,6 +240,8 @@ def run_case(ctx, spec: dict) -> str | None:
         if c is not None:
             for d, tag in ((c - E, "window-eps"), (c, "window"), (c + E, "window+eps")):
                 points.append((e["t"] + d, 1, tag, e))
+    for i, (lt, lkind) in enumerate(spec.get("lifecycle", [])):
+        points.append((lt, 0, "life", {"kind": lkind, "i": i}))
     for i, (ft, fstate) in enumerate(spec.get("flaps", [])):
         points.append((ft, 0, "conn", {"state": fstate, "i": i}))
     points.sort(key=lambda p: (p[0], p[1], p[3].get("i", 0) if p[2] == "conn" else 0))
@@ -271,8 +291,13 @@ def run_case(ctx, spec: dict) -> str | None:
                         viol(mech, f"{tag} at +{t}: state {st!r}, reference {exp}", {"at": t, "tag": tag})
                         return False
             if c is not None:
-                ctx.count("probe_counter")
                 expc = model.counter(t)
+                if model.tasks_cancelled and model.window_end is not None and t >= model.window_end:
+                    # clearing the counter when the window passes is done by the cancelled task; the statement only says what is
+                    # counted, so this reading is recorded; the next telegram must start a new chain all the same
+                    ctx.count("probe_counter_after_cancelled_window_recorded_only")
+                    return True
+                ctx.count("probe_counter")
                 if expc > 1:
                     ctx.count("probe_counter_above_one")
                 if cnt != expc:
@@ -291,6 +316,25 @@ def run_case(ctx, spec: dict) -> str | None:
 
         for t, _o, tag, e in points:
             await h.sleep_until(t0 + t)
+            if tag == "life":
+                # internal tasks are cancelled; the telegram history - and therefore the reference chain - is untouched
+                ctx.count("lifecycle_" + e["kind"])
+                if model.window_end is not None and t < model.window_end:
+                    ctx.count("lifecycle_while_context_window_open")
+                    if model.cnt[True] and model.cnt[False]:
+                        ctx.count("lifecycle_while_both_states_counted")
+                trace.append(("life", t, e["kind"]))
+                if e["kind"] == "restart_xknx":
+                    await h.xknx.stop()
+                    await h.xknx.start()
+                else:
+                    h.xknx.devices.async_remove(dev)
+                    h.xknx.devices.async_add(dev)
+                model.tasks_cancelled = True
+                await h.settle()
+                if not probe(t, "after-" + e["kind"]):
+                    return
+                continue
             if tag == "conn":
                 # the reference timer / counter ignores connection state changes
                 state = XknxConnectionState[e["state"]]
@@ -427,7 +471,8 @@ def run(ctx):
                 "response_judged", "response_on_while_on_must_restart_timer", "write_on_while_on_must_restart_timer",
                 "response_ignored_for_counting", "response_counted_like_a_write",
                 "reconnect_while_reset_timer_pending", "reconnect_while_context_window_open",
-                "junk_while_reset_timer_pending", "junk_while_context_window_open", "junk_read", "junk_array2")
+                "junk_while_reset_timer_pending", "junk_while_context_window_open", "junk_read", "junk_array2",
+                "lifecycle_restart_xknx", "lifecycle_readd_device", "lifecycle_while_both_states_counted")
     n = ctx.scale(520, 8000 * 16)
     for i in range(n):
         if not ctx.mine(i):
